@@ -307,7 +307,7 @@ def run_epochs(ctx, jobs, avoid, budget=600):
         out = out.decode("utf-8", "replace")
         rc = p.returncode
         jp = os.path.join(d, "journal.txt")
-        if rc in (2, 3) and (not os.path.exists(jp) or os.path.getsize(jp) == 0):
+        if rc in (1, 2, 3) and (not os.path.exists(jp) or os.path.getsize(jp) == 0):
             # nothing was sent yet: server start problem (a port taken by an unrelated outgoing
             # connection, slow election): one retry (the harness probes for free ports itself)
             for attempt in (1, 2, 3):
@@ -316,7 +316,7 @@ def run_epochs(ctx, jobs, avoid, budget=600):
                 if m:   # another port triple (the range overlaps the kernel's ephemeral ports)
                     cmd = cmd.replace("-port " + m.group(1), "-port %d" % (34000 + (int(m.group(1)) - 34000 + 211 * attempt) % 990))
                 rc, out, _ = sh(cmd, cwd=d, timeout=max(30, t_end - time.time()))
-                if rc not in (2, 3) or (os.path.exists(jp) and os.path.getsize(jp) > 0):
+                if rc not in (1, 2, 3) or (os.path.exists(jp) and os.path.getsize(jp) > 0):
                     break
         res.append((sub, d, rc, out))
     mprocs = []
@@ -377,7 +377,7 @@ def run(ctx):
         if rc not in (0, 1, 4, 5, 6, -9, 137) and not os.path.exists(os.path.join(d, "journal.txt")):
             log("HARNESS RUN FAILED (%s rc=%s):\n%s" % (sub, rc, out[-2000:]))
             raise SystemExit(2)
-        if rc == 3 or (rc == 2 and os.path.getsize(os.path.join(d, "journal.txt")) == 0):
+        if rc == 3 or (rc in (1, 2) and os.path.getsize(os.path.join(d, "journal.txt")) == 0):
             ctx.notes.append("%s: server start inconclusive (rc=%s): %s" % (sub, rc, out[-300:]))
             if "INCONCLUSIVE" not in out and "already in use" not in open(os.path.join(d, "server.log"), errors="replace").read():
                 log("HARNESS RUN FAILED (%s rc=%s):\n%s" % (sub, rc, out[-2000:]))
